@@ -43,11 +43,67 @@ def split_patterns(job, size=256):
     return out
 
 
-def judge_emits(chk, recs, name="emits", chunk=256):
+def _too_large_without_native_operator(r, cap=4096):
+    """an emitted program that contains no native operator and leaves more than `cap` combinations of auxiliary
+    variables to search (the auxiliary-variable encoding where the native one was requested): TLC's evaluator is
+    the wrong judge for it, the real z3 path decides it instead (the properties are about meaning, not encoding)"""
+    if r.get("status", "ok") != "ok":
+        return False
+    prog = r.get("prog") or {"vars": [], "cons": []}
+
+    def has_native(t):
+        return t.get("op", "").startswith("GRAPH_") or any(has_native(x) for x in t.get("args", []))
+    if any(has_native(c) for c in prog["cons"]):
+        return False
+    pinned = {b["var"] for b in r.get("bits", [])} | {f["var"] for f in r.get("fixed", [])}
+    free = 1
+    for i, v in enumerate(prog["vars"]):
+        if i not in pinned:
+            free *= 2 if v["kind"] == "bool" else max(1, v["hi"] - v["lo"] + 1)
+            if free > cap:
+                return True
+    return False
+
+
+def judge_emits(chk, recs, name="emits", chunk=256, fallback=None, jobs=None):
     """recs: list of dicts with t, status, exc, prog, bits, fixed, expects -> {t: verdict}.
-    A record with many patterns is split into several TLC records (p0..p1) so that workers share it."""
+    A record with many patterns is split into several TLC records (p0..p1) so that workers share it.
+    fallback = (z3 run function, emit job -> list of z3 jobs or None): used for the records of `jobs` (parallel to
+    recs) whose program is the auxiliary-variable encoding (see _too_large_without_native_operator)."""
     if not recs:
         return {}
+    deferred = {}
+    for k, r in enumerate(recs):
+        if _too_large_without_native_operator(r):
+            zj = fallback[1](jobs[k]) if fallback and jobs else None
+            if not zj:
+                raise MachineryError("an emitted program without native operator is too large for the TLC evaluator "
+                                     "and no solver route is available for it: record %s" % r.get("t"))
+            deferred[r["t"]] = zj
+    out = {}
+    if deferred:
+        flat = [(t, j) for t, zj in deferred.items() for j in zj]
+        results = pmap(fallback[0], [j for _, j in flat])
+        mism = {}
+        for (t, _), res in zip(flat, results):
+            mism.setdefault(t, []).extend(res)
+        for t in deferred:
+            ms = sorted(mism.get(t, []), key=lambda m: m["pattern"])
+            if not ms:
+                out[t] = {"t": t, "p0": 0, "verdict": "ok", "pattern": -1, "nbad": 0, "judged_by": "z3"}
+            else:
+                m = ms[0]
+                what = ("emit:admits-a-pattern-the-definition-rejects" if m["observed"] is True and m["expected"] is False else
+                        "emit:rejects-a-pattern-the-definition-admits" if m["observed"] is False and m["expected"] is True else
+                        "emit:returned-array-differs-from-the-definition" if m["observed"] == m["expected"] else
+                        "emit:" + str(m["observed"]).replace(" ", "-"))
+                out[t] = {"t": t, "p0": 0, "verdict": what, "pattern": m["pattern"], "nbad": len(ms), "judged_by": "z3"}
+        chk.extra["emitted_programs_without_native_operator_judged_by_z3"] = len(deferred)
+    recs_all = recs
+    recs = [r for r in recs if r["t"] not in deferred]
+    if not recs:
+        chk.traces += len(recs_all)
+        return out
     lines = []
     for r in recs:
         r.setdefault("prog", {"vars": [], "cons": [], "keys": []})
@@ -67,7 +123,6 @@ def judge_emits(chk, recs, name="emits", chunk=256):
     chk.add_tlc(res)
     if len(res.records) != len(lines):
         raise MachineryError(f"{len(lines)} emitted-program records but {len(res.records)} verdicts")
-    out = {}
     for v in sorted(res.records, key=lambda v: (v["t"], v["p0"])):
         cur = out.get(v["t"])
         if cur is None or (cur["verdict"] == "ok" and v["verdict"] != "ok"):
@@ -75,5 +130,5 @@ def judge_emits(chk, recs, name="emits", chunk=256):
             out[v["t"]] = dict(v, nbad=v["nbad"] + nb)
         elif v["verdict"] != "ok":
             cur["nbad"] += v["nbad"]
-    chk.traces += len(recs)
+    chk.traces += len(recs_all)
     return out
